@@ -2,7 +2,9 @@ package main
 
 import (
 	"bytes"
+	"errors"
 	"fmt"
+	"io"
 	"os"
 	"os/exec"
 	"path/filepath"
@@ -620,6 +622,9 @@ func runC17(c *Ctx) {
 		bt.Flush()
 		c.Notes = append(c.Notes, fmt.Sprintf("directed search: %d single-amount tables around %d amounts of disagreeing cases (all --digits -3..10, -k on/off, sign/scale variants)", idx, len(seen)))
 	}
+
+	// ---- stream "fault": the renderers writing into a writer that fails after N bytes
+	runC17Fault(c, bt)
 
 	// ---- stream "balance": the real binary, text against --csv of the same journal
 	runC17Balance(c, bt)
@@ -1707,4 +1712,274 @@ func c17FirstDiff(want, got string) string {
 		return s[lo:hi]
 	}
 	return fmt.Sprintf("eagerly read output: %d bytes, this consumer: %d bytes, first difference at byte %d\n--- eager\n%s\n--- this consumer\n%s", len(want), len(got), n, ctx(want), ctx(got))
+}
+
+// ---------------------------------------------------------------- stream "fault": rendering into a writer that fails
+
+// c17faultWriter accepts limit bytes and fails from then on, for good. Mode "reject": the write that would
+// cross the limit writes nothing; "partial": it writes up to the limit and reports a short write; "nospace":
+// the same with ENOSPC (what write(2) on a full file system does to a buffered writer).
+type c17faultWriter struct {
+	buf       bytes.Buffer
+	limit     int // < 0: never fails
+	mode      string
+	failed    bool
+	lastStart int // offset at which the latest Write call began
+}
+
+var errC17Fault = errors.New("c17: injected write fault")
+
+func (w *c17faultWriter) Write(p []byte) (int, error) {
+	if w.failed {
+		return 0, w.err()
+	}
+	w.lastStart = w.buf.Len()
+	if w.limit < 0 || w.buf.Len()+len(p) <= w.limit {
+		return w.buf.Write(p)
+	}
+	w.failed = true
+	if w.mode == "reject" {
+		return 0, w.err()
+	}
+	n, _ := w.buf.Write(p[:w.limit-w.buf.Len()])
+	return n, w.err()
+}
+
+func (w *c17faultWriter) err() error {
+	switch w.mode {
+	case "partial":
+		return io.ErrShortWrite
+	case "nospace":
+		return syscall.ENOSPC
+	}
+	return errC17Fault
+}
+
+var c17faultModes = []string{"reject", "partial", "nospace"}
+
+// c17FaultRender renders the table with the given renderer into w; res is "nil", "error" or "panic".
+func (tb *c17table) c17FaultRender(renderer string, colour bool, w io.Writer) (res string) {
+	defer func() {
+		if r := recover(); r != nil {
+			res = "panic"
+		}
+	}()
+	var err error
+	if renderer == "csv" {
+		rn := table.CSVRenderer{}
+		err = rn.Render(tb.build(), w)
+	} else {
+		rn := table.TextRenderer{Color: colour, Thousands: tb.Thousands, Round: int32(tb.Digits)}
+		err = rn.Render(tb.build(), w)
+	}
+	if err != nil {
+		return "error"
+	}
+	return "nil"
+}
+
+// genC17LongTable is a report-shaped table of many rows (output above one or several 4 KiB buffers).
+func genC17LongTable(r *RNG, rows int) *c17table {
+	tb := &c17table{Thousands: r.Chance(2, 5), Digits: Pick(r, c17digits)}
+	cols := r.Range(1, 6)
+	if r.Bool() {
+		tb.Groups = []int{1, cols}
+	} else {
+		tb.Groups = []int{1, 1, cols}
+	}
+	w := tb.width()
+	tb.Ops = append(tb.Ops, c17op{Kind: "S"}, c17op{Kind: "R"})
+	for j := 0; j < w; j++ {
+		tb.Ops = append(tb.Ops, c17op{Kind: "t", Align: 2, Text: c17name(r)})
+	}
+	tb.Ops = append(tb.Ops, c17op{Kind: "S"})
+	for i := 0; i < rows; i++ {
+		switch {
+		case r.Chance(1, 25):
+			tb.Ops = append(tb.Ops, c17op{Kind: "S"})
+			continue
+		case r.Chance(1, 30):
+			tb.Ops = append(tb.Ops, c17op{Kind: "E"})
+			continue
+		}
+		tb.Ops = append(tb.Ops, c17op{Kind: "R"}, c17op{Kind: "i", Indent: 2 * r.Intn(5), Text: c17name(r)})
+		for j := 1; j < w; j++ {
+			switch {
+			case j == 1 && len(tb.Groups) == 3:
+				tb.Ops = append(tb.Ops, c17op{Kind: "t", Align: r.Intn(3), Text: Pick(r, []string{"CHF", "USD", "AAPL", "日本円", ""})})
+			case r.Chance(1, 6):
+				tb.Ops = append(tb.Ops, c17op{Kind: "f"})
+				j = w
+			case r.Chance(1, 8):
+				tb.Ops = append(tb.Ops, c17op{Kind: "e"})
+			default:
+				lit, _ := c17decimal(r, tb.Digits, tb.Thousands)
+				tb.Ops = append(tb.Ops, c17op{Kind: "d", Dec: c17NormDec(lit)})
+			}
+		}
+	}
+	tb.Ops = append(tb.Ops, c17op{Kind: "S"})
+	return tb
+}
+
+// c17FaultOffsets: every offset of a small output; for a larger one the first and last bytes, the bytes around
+// every line break of a few lines, around the multiples of 4096 (bufio) and a random sample.
+func c17FaultOffsets(r *RNG, full string, all int, sample int) []int {
+	n := len(full)
+	if n <= all {
+		offs := make([]int, n)
+		for i := range offs {
+			offs[i] = i
+		}
+		return offs
+	}
+	seen := map[int]bool{}
+	var offs []int
+	add := func(x int) {
+		if x >= 0 && x < n && !seen[x] {
+			seen[x] = true
+			offs = append(offs, x)
+		}
+	}
+	for _, x := range []int{0, 1, 2, 3, n - 1, n - 2, n - 3, n - 4} {
+		add(x)
+	}
+	var breaks []int
+	for i := 0; i < n; i++ {
+		if full[i] == '\n' {
+			breaks = append(breaks, i)
+		}
+	}
+	for k := 0; k < 6 && len(breaks) > 0; k++ {
+		b := Pick(r, breaks)
+		add(b - 1)
+		add(b)
+		add(b + 1)
+		add(b + 2)
+	}
+	for m := 4096; m < n+4096; m += 4096 {
+		for d := -2; d <= 2; d++ {
+			add(m + d)
+		}
+	}
+	for len(offs) < sample {
+		add(r.Intn(n))
+	}
+	sort.Ints(offs)
+	return offs
+}
+
+// c17FaultKnownCSV is the predicate of the known finding `csv-render-drops-final-flush-error`: the CSV renderer
+// returned nil although only its last write to the underlying writer (the Flush at the end of Render) failed.
+func c17FaultKnownCSV(renderer string, res string, off, lastStart int, full, got string) bool {
+	return renderer == "csv" && res == "nil" && off >= lastStart && strings.HasPrefix(full, got)
+}
+
+// runC17FaultOne renders tb with one renderer configuration into writers failing at the offsets; monitor:
+// Render reports an error, or what it wrote is the complete output (which the other streams judge).
+func (c *Ctx) runC17FaultOne(bt *Batch, i int, tb *c17table, renderer string, colour bool, mode string, offs []int, all int, sample int, r *RNG) {
+	ok := &c17faultWriter{limit: -1}
+	res := tb.c17FaultRender(renderer, colour, ok)
+	if res != "nil" {
+		c.Tag("fault-unfaulted-" + res)
+		return
+	}
+	full := ok.buf.String()
+	lastStart := ok.lastStart
+	if offs == nil {
+		offs = c17FaultOffsets(r, full, all, sample)
+	}
+	c.Class(fmt.Sprintf("fault/%s/colour%v/k%v/%s/%s", renderer, colour, tb.Thousands, mode, c17SizeClass(len(full))))
+	head := []string{c17BoolField(tb.Thousands), itoa(tb.Digits), tb.groupsField()}
+	for _, off := range offs {
+		if off < 0 || off >= len(full) {
+			continue
+		}
+		c.Evals++
+		fw := &c17faultWriter{limit: off, mode: mode}
+		res := tb.c17FaultRender(renderer, colour, fw)
+		got := fw.buf.String()
+		pred := "write fault: Render reports an error or wrote the complete " + renderer + " output"
+		if res == "error" || (res == "nil" && got == full) {
+			c.Monitor("fault", i, pred, nil, true, "")
+			continue
+		}
+		in := tb.input()
+		in["fault"] = map[string]any{"renderer": renderer, "colour": colour, "mode": mode, "offset": off, "full_len": len(full)}
+		detail := fmt.Sprintf("Render returned %s after the writer failed (%s) at byte %d of %d; written %d bytes:\n%s", res, mode, off, len(full), len(got), got)
+		switch {
+		case c17FaultKnownCSV(renderer, res, off, lastStart, full, got):
+			c.MonitorKnown("fault", i, pred, in, detail, "csv-render-drops-final-flush-error")
+		case res == "nil" && renderer == "text" && !colour:
+			// the property's own statement on what was reported as a complete table
+			bt.Add(func(mon string) {
+				c.Monitor("fault", i, pred+" (textOK of the bytes: "+mon+")", in, false, detail)
+			}, append(append([]string{"c17mon"}, append(head, Hex(got))...), tb.fields()...)...)
+		case res == "nil" && renderer == "csv":
+			bt.Add(func(mon string) {
+				c.Monitor("fault", i, pred+" (csvTextOK of the bytes: "+mon+")", in, false, detail)
+			}, append([]string{"c17csvmon", tb.groupsField(), Hex(got)}, tb.fields()...)...)
+		default:
+			c.Monitor("fault", i, pred, in, false, detail)
+		}
+	}
+}
+
+var c17faultConfigs = []struct {
+	renderer string
+	colour   bool
+}{{"text", false}, {"text", true}, {"csv", false}}
+
+func runC17Fault(c *Ctx, bt *Batch) {
+	if c.Replay && c.OnlyStr != "fault" {
+		return
+	}
+	if c.Replay && c.ReplayInput != nil {
+		if f, ok := c.ReplayInput["fault"].(map[string]any); ok {
+			tb := c17TableFromInput(c.ReplayInput)
+			renderer, _ := f["renderer"].(string)
+			colour, _ := f["colour"].(bool)
+			mode, _ := f["mode"].(string)
+			off, _ := f["offset"].(float64)
+			c.Replay = false
+			c.runC17FaultOne(bt, c.OnlyIndex, tb, renderer, colour, mode, []int{int(off)}, 0, 0, nil)
+			bt.Flush()
+			return
+		}
+	}
+	n := c.N(260, 6000)
+	t0 := time.Now()
+	ev0 := c.Evals
+	defer func() {
+		if !c.Replay {
+			c.Notes = append(c.Notes, fmt.Sprintf("fault stream: %d tables, %d renderings into failing writers, %.1f s", n, c.Evals-ev0, time.Since(t0).Seconds()))
+		}
+	}()
+	for i := 0; i < n; i++ {
+		if !c.Want("fault", i) {
+			continue
+		}
+		r := c.Rng("fault", i)
+		var tb *c17table
+		all, sample := 700, 48
+		switch {
+		case i%13 == 12:
+			// several buffers long
+			tb = genC17LongTable(r, r.Range(40, c.N(400, 1500)))
+			sample = 64
+		default:
+			tb = genC17Table(r, false, map[string]bool{})
+		}
+		if c.Thorough() {
+			all, sample = 3000, 160
+		}
+		for _, cf := range c17faultConfigs {
+			mode := Pick(r, c17faultModes)
+			c.runC17FaultOne(bt, i, tb, cf.renderer, cf.colour, mode, nil, all, sample, r)
+		}
+		if i < 1 {
+			c.Sample(map[string]any{"stream": "fault", "input": tb.input()})
+		}
+	}
+	bt.Flush()
 }
